@@ -26,6 +26,7 @@ mod impls_024 {
 
     use crate::{MetricRecorder, unit::metrics_024_unit_to_metrique_unit};
 
+    #[cfg(not(metrique_verif))]
     impl<K> Storage<K> for super::AtomicStorageWithHistogram {
         type Counter = Arc<AtomicU64>;
         type Gauge = Arc<AtomicU64>;
@@ -37,6 +38,80 @@ mod impls_024 {
 
         fn gauge(&self, _: &K) -> Self::Gauge {
             Arc::new(AtomicU64::new(0))
+        }
+
+        fn histogram(&self, _: &K) -> Self::Histogram {
+            Arc::new(crate::metrics_histogram::Histogram::new())
+        }
+    }
+
+    // Verification hook: the same storage, but every atomic operation on a counter or gauge cell
+    // is a scheduling point of the simulator (`readout` below compiles unchanged against it).
+    #[cfg(metrique_verif)]
+    #[derive(Debug, Default)]
+    pub struct VerifAtomicU64(detsim::sync::atomic::AtomicU64);
+
+    #[cfg(metrique_verif)]
+    impl VerifAtomicU64 {
+        pub fn new(v: u64) -> Self {
+            Self(detsim::sync::atomic::AtomicU64::new(v))
+        }
+        pub fn load(&self, o: std::sync::atomic::Ordering) -> u64 {
+            self.0.load(o)
+        }
+        pub fn store(&self, v: u64, o: std::sync::atomic::Ordering) {
+            self.0.store(v, o)
+        }
+        pub fn swap(&self, v: u64, o: std::sync::atomic::Ordering) -> u64 {
+            self.0.swap(v, o)
+        }
+        pub fn fetch_add(&self, v: u64, o: std::sync::atomic::Ordering) -> u64 {
+            self.0.fetch_add(v, o)
+        }
+    }
+
+    #[cfg(metrique_verif)]
+    impl metrics_024::CounterFn for VerifAtomicU64 {
+        fn increment(&self, value: u64) {
+            let _ = self.0.fetch_add(value, std::sync::atomic::Ordering::Release);
+        }
+        fn absolute(&self, value: u64) {
+            let _ = self.0.fetch_max(value, std::sync::atomic::Ordering::AcqRel);
+        }
+    }
+
+    #[cfg(metrique_verif)]
+    impl metrics_024::GaugeFn for VerifAtomicU64 {
+        fn increment(&self, value: f64) {
+            use std::sync::atomic::Ordering::{AcqRel, Relaxed};
+            loop {
+                let cur = self.0.load(Relaxed);
+                let new = (f64::from_bits(cur) + value).to_bits();
+                if self.0.compare_exchange(cur, new, AcqRel, Relaxed).is_ok() {
+                    return;
+                }
+            }
+        }
+        fn decrement(&self, value: f64) {
+            self.increment(-value)
+        }
+        fn set(&self, value: f64) {
+            self.0.store(value.to_bits(), std::sync::atomic::Ordering::Release);
+        }
+    }
+
+    #[cfg(metrique_verif)]
+    impl<K> Storage<K> for super::AtomicStorageWithHistogram {
+        type Counter = Arc<VerifAtomicU64>;
+        type Gauge = Arc<VerifAtomicU64>;
+        type Histogram = Arc<crate::metrics_histogram::Histogram>;
+
+        fn counter(&self, _: &K) -> Self::Counter {
+            Arc::new(VerifAtomicU64::new(0))
+        }
+
+        fn gauge(&self, _: &K) -> Self::Gauge {
+            Arc::new(VerifAtomicU64::new(0))
         }
 
         fn histogram(&self, _: &K) -> Self::Histogram {
